@@ -38,6 +38,11 @@ type Gen struct {
 	events     []entropy.Event
 }
 
+// Deep selects the thorough tier's generation bounds (longer histories, more
+// tasks). It is part of what a (seed, index) pair means, and is set once by the
+// worker from its -tier flag; replay files are explicit and do not depend on it.
+var Deep bool
+
 var (
 	two255 = new(big.Int).Lsh(big.NewInt(1), 255)
 	two256 = new(big.Int).Lsh(big.NewInt(1), 256)
@@ -912,6 +917,9 @@ func GenC10(seed, index uint64) *Run {
 	if r.P(0.3) {
 		n = 1 + r.N(8)
 	}
+	if Deep && r.P(0.3) {
+		n = 40 + r.N(120)
+	}
 	pE := 0.35 + 0.5*r.F()
 	run.Tasks = [][]Op{g.program(n, pE, 0.08*r.F()*2)}
 	g.finishEntropy()
@@ -940,6 +948,9 @@ func GenC15(seed, index uint64) *Run {
 	g.retRate = 0.15 * r.F()
 	g.scribRate = 0.25 * r.F()
 	n := 1 + r.N(24)
+	if Deep && r.P(0.3) {
+		n = 24 + r.N(60)
+	}
 	pE := 0.4 + 0.4*r.F()
 	run.Tasks = [][]Op{g.program(n, pE, 0.05)}
 	g.finishEntropy()
@@ -988,7 +999,7 @@ func GenC16(seed, index uint64, build string, funcs, hot []string) *Run {
 	// shared state for the tasks
 	shared := g.m
 	nt := 2 + r.N(3)
-	if r.P(0.25) {
+	if r.P(0.25) || (Deep && r.P(0.4)) {
 		nt = 2 + r.N(7)
 	}
 	heavy := 0.0
